@@ -393,7 +393,8 @@ def _extract_class(src, mod: Module, c: ast.ClassDef, menv: dict, done: dict) ->
             raise AnalysisError(f"{c.name}: class-body statement not understood: {type(st).__name__}")
         raise AnalysisError(f"{c.name}: class-body statement not understood: {norm(st)}")
 
-    if reflags not in (None, "0"):
+    ascii_flag = reflags in ("re.ASCII", "re.A")
+    if reflags not in (None, "0") and not ascii_flag:
         raise AnalysisError(f"{c.name}.reflags = {reflags}: regex flags are not supported")
 
     token_names = set(base_tokens) | set(tokens)
@@ -427,6 +428,16 @@ def _extract_class(src, mod: Module, c: ast.ClassDef, menv: dict, done: dict) ->
         else:
             rules.append(r)
     rules = [r for r in rules if r.name not in deletes]
+    if ascii_flag:
+        # the master pattern of this class is compiled with re.ASCII: \d \s \w \b of every rule (inherited ones too) are ASCII-only
+        import copy as _copy
+        scoped = []
+        for r in rules:
+            r2 = _copy.copy(r)
+            if not r2.pattern.startswith("(?a:"):
+                r2.pattern = f"(?a:{r2.pattern})"
+            scoped.append(r2)
+        rules = scoped
 
     ef = None
     for st in c.body:
@@ -494,7 +505,8 @@ def check_sly_anchors(src: Source, anchors=SLY_LEX_ANCHORS, rel="sly/lex.py") ->
                     found = True
                     break
         if not found:
-            raise AnalysisError(
+            from .core import AnchorError
+            raise AnchorError(
                 f"vendored sly changed: {rel}:{qual} no longer contains `{text}` ({why}); "
                 "the lexer model must be re-derived")
         n += 1
